@@ -5,6 +5,8 @@ SPEC = {
     "tests": [
         {"name": "TestGRPCJSON", "quick": 240, "thorough": 12000, "shards_quick": 8, "shards_thorough": 16, "timeout": 3000},
         {"name": "TestGRPCScenario", "quick": 320, "thorough": 16000, "shards_quick": 8, "shards_thorough": 16, "timeout": 3000},
+        # sleep-bound: the case count per process is fixed inside the test (vf.Batch: 12 quick / 60 thorough, eight at a time)
+        {"name": "TestGRPCScenarioPaced", "quick": 12, "thorough": 60, "shards_quick": 4, "shards_thorough": 8, "timeout": 3000},
         {"name": "TestKnownWitness", "quick": 1, "thorough": 1, "shards": 1, "timeout": 300},
     ],
     "rule": ("rapid-generated grpc/json ammo over the example TargetService (Hello/Auth/List/Order): payload field subsets, unicode and "
